@@ -193,10 +193,20 @@ def approximate_scenarios(rep, prog, deep):
     ap = prog.body(APPROX)
     half = Fraction(1, 2)
 
-    def run(accept, ilog=0):
+    ilog_args, entries = [], []
+
+    def run(accept, ilog=0, npts=4, intercept=False):
         asked = []
         scell = A.Frame(None)
-        scell.locals[0] = ("adt", ADT, "BezierSpline", [("array", [S.sym("p%d" % i) for i in range(4)])])
+        scell.locals[0] = ("adt", ADT, "BezierSpline", [("array", [S.sym("p%d" % i) for i in range(npts)])])
+
+        def m_ilog(it, args, c, d):
+            ilog_args.append((npts, A.deref_all(it, args[0])))
+            return ilog
+
+        def m_do(it, args, c, d):
+            entries.append((ilog, [A.deref_all(it, x) for x in args[1:4]]))
+            return ("tuple", [])
 
         def m_eval(it, args, c, d):
             t = A.deref_all(it, args[1])
@@ -224,7 +234,10 @@ def approximate_scenarios(rep, prog, deep):
             if len(asked) > 2200 or (len(ends) == 2 and ends[1] - ends[0] < 2.0 ** -11):
                 raise TooDeep()          # more pieces than exist down to depth 10, or a piece narrower than depth 10 allows
             return int(accept(mids[0] if mids else None, tuple(ends)))
-        it = S.interp(prog, models={"BezierSpline::<T>::eval": m_eval, "ops::function::Fn::call": m_halt, ">::ilog2": lambda *_a: ilog})
+        models = {"BezierSpline::<T>::eval": m_eval, "ops::function::Fn::call": m_halt, ">::ilog2": m_ilog}
+        if intercept:
+            models["BezierSpline::<T>::do_approx"] = m_do
+        it = S.interp(prog, models=models)
         it.fuel = 20000000
         r = A.deref_all(it, it.call_body(ap, [("ref", scell, 0, []), ("sym", "HALT")], env={"T": "f32"}))
         if not (isinstance(r, tuple) and r[0] == "array"):
@@ -240,13 +253,17 @@ def approximate_scenarios(rep, prog, deep):
             ("halt accepts [0, .5], [.5, .75] and [.75, 1] only", lambda m, e: e in ((0.0, 0.5), (0.5, 0.75), (0.75, 1.0)),
              [ev(0.0), ev(0.5), ev(0.75)], [(0.0, 1.0), (0.0, 0.5), (0.5, 1.0), (0.5, 0.75), (0.75, 1.0)])]
     ok_all = True
-    for name, acc, leaves, nodes in scen:
+    for name, acc, leaves, nodes, npts in [x + (4,) for x in scen] + [scen[1] + (7,)]:
         try:
-            out, asked = run(acc)
+            out, asked = run(acc, npts=npts)
         except (A.Undecided, A.Panic) as e:
             raise common.Infra("C17.R-leaf: approximate() could not be interpreted in the scenario '%s' (%s)" % (name, e))
-        want = leaves + [S.sym("p3")]
-        if out != want:
+        want = leaves + [S.sym("p%d" % (npts - 1))]
+        if out[:-1] == want[:-1] and out[-1:] != want[-1:]:
+            ok_all = False
+            rep.violate("C17.R-ends", "R-ends|last-point", ap.where(), "when %s, the polyline approximate() returns for a spline of %d control points ends with %s instead of the last "
+                        "control point p%d" % (name, npts, str(out[-1])[:40] if out else "nothing", npts - 1), config=cfg)
+        elif out != want:
             ok_all = False
             rep.violate("C17.R-leaf", "R-leaf|polyline", ap.where(), "when %s, approximate() returns %s instead of eval(a) of the accepted pieces from left to right followed by the last "
                         "control point (%s)" % (name, [str(x)[:40] for x in out][:6], [str(x)[:40] for x in want]), config=cfg)
@@ -254,6 +271,29 @@ def approximate_scenarios(rep, prog, deep):
             ok_all = False
             rep.violate("C17.R-leaf", "R-leaf|criterion", ap.where(), "when %s, halt is consulted about the pieces %s (expected %s, each as eval(mid) - (eval(a) + eval(b)) / 2)"
                         % (name, [a_ for a_, _ok in asked][:8], nodes), config=cfg)
+    # the initial budget: 10 + ilog2(number of control points), over [0, 1]
+    if any(True for _b, _t in ap.calls(lambda c: c["path"] == DO)):
+        for ilog_ in (0, 3):
+            try:
+                run(lambda m, e: True, ilog=ilog_, npts=7, intercept=True)
+            except (A.Undecided, A.Panic) as e:
+                raise common.Infra("C17.R-term: approximate() could not be interpreted up to its do_approx call (%s)" % e)
+        got = [(il, v) for il, v in entries]
+        ok_ends = bool(got) and all(v[0] == ("f", 0.0) and v[1] == ("f", 1.0) for _il, v in got)
+        ok_bud = bool(got) and all(v[2] == 10 + il for il, v in got)
+        rep.inst("C17.R-term", "approximate starts do_approx(0.0, 1.0, 10 + len.ilog2(), ..): interval=%s budget=%s (ilog2 = 0 -> %s, ilog2 = 3 -> %s)"
+                 % (ok_ends, ok_bud, [v[2] for il, v in got if il == 0], [v[2] for il, v in got if il == 3]), config=cfg)
+        if not ok_ends:
+            ok_all = False
+            rep.violate("C17.R-ends", "R-ends|interval", ap.where(), "approximate does not subdivide the whole parameter interval [0, 1] (%s)" % [str(v[:2])[:60] for _il, v in got][:1], config=cfg)
+        if not ok_bud:
+            ok_all = False
+            rep.violate("C17.R-term", "R-term|budget", ap.where(), "initial depth budget is not 10 + len.ilog2(): with ilog2 = 0 / 3 it is %s" % [str(v[2])[:30] for _il, v in got], config=cfg)
+    bad_ilog = sorted({(n_, str(a_)[:30]) for n_, a_ in ilog_args if a_ != n_})
+    rep.inst("C17.R-term", "ilog2 in approximate() is taken of the number of control points (%d evaluations): %s" % (len(ilog_args), not bad_ilog), config=cfg)
+    if bad_ilog:
+        ok_all = False
+        rep.violate("C17.R-term", "R-term|budget", ap.where(), "the depth budget's logarithm is taken of %s for a spline of %d control points, not of their number" % (bad_ilog[0][1], bad_ilog[0][0]), config=cfg)
     n_deep = None
     if deep:
         try:
@@ -275,7 +315,7 @@ def approximate_scenarios(rep, prog, deep):
             rep.violate("C17.R-term", "R-term|budget-exhaustion", ap.where(), "with a criterion that never accepts and a budget of 10, approximate() returns %d points instead of the 1024 "
                         "pieces of depth 10 plus the last control point: the subdivision does not stop at (or does not reach) the depth budget" % len(out), config=cfg)
     rep.inst("C17.R-leaf", "approximate() interpreted against fixed subdivision trees (%d scenarios%s): returns eval(a) of the leaves left to right + last control point; "
-             "halt sees eval(mid) - (eval(a)+eval(b))/2 of each node: %s" % (len(scen), "; never-accepting criterion: %d points" % n_deep if n_deep else "", ok_all), config=cfg)
+             "halt sees eval(mid) - (eval(a)+eval(b))/2 of each node: %s" % (len(scen) + 1, "; never-accepting criterion: %d points" % n_deep if n_deep else "", ok_all), config=cfg)
     return ok_all
 
 
@@ -302,42 +342,8 @@ def check_config(rep, prog):
         rep.violate("C17.R-term", "R-term|mutual", do.where(), "do_approx is part of a larger recursion cycle through %s" % back, config=cfg)
     if recursive:
         do_approx_contract(rep, prog, do)
-    # initial budget
     ap = prog.body(APPROX)
-    asl = T.Slicer(ap)
-    entry = [(bi, t) for bi, t in ap.calls(lambda c: c["path"] == DO)]
-    rep.floor("C17.entry.%s" % cfg, len(entry), 1, "do_approx call in approximate")
-    bi, t = entry[0]
-    a0, b0 = asl.operand(t["args"][1]), asl.operand(t["args"][2])
-    bud = s(asl.operand(t["args"][3]))
-    fin = T.contains(bud, lambda q: q[0] == "call" and q[1].split(" => ")[0].endswith("::ilog2")) and T.contains(bud, lambda q: q == ("const", "u32", 10))
-    ends = a0 == ("const", "f32", 0.0) and b0 == ("const", "f32", 1.0)
-    rep.inst("C17.R-term", "approximate starts do_approx(0.0, 1.0, 10 + len.ilog2(), ..): interval=%s finite budget=%s" % (ends, fin), config=cfg)
-    if not ends:
-        rep.violate("C17.R-ends", "R-ends|interval", ap.where(bi, None), "approximate does not subdivide the whole parameter interval [0, 1] (%s, %s)" % (T.show(a0), T.show(b0)), config=cfg)
-    if not fin:
-        rep.violate("C17.R-term", "R-term|budget", ap.where(bi, None), "initial depth budget is not 10 + len.ilog2() (%s)" % T.show(bud)[:60], config=cfg)
-
-    # final push of the last control point, after the recursion
-    fp = [(pb, pt) for pb, pt in ap.calls(lambda c: c["path"].endswith("Vec::<T, A>::push"))]
-    ok_last = False
-    for pb, pt in fp:
-        v = s(asl.operand(pt["args"][1]))
-        # clone(self.0[len - 1])
-        idx = [q for q in T.walk(v) if q[0] == "call" and "ops::index::Index" in q[1]]
-        if idx:
-            i = s(idx[0][2][1])
-            while i[0] == "field" and i[2] == "0" and i[1][0] == "bin":
-                i = i[1]
-            is_last = i[0] == "bin" and i[1].startswith("Sub") and i[3] == ("const", "usize", 1) and T.contains(i[2], lambda q: q[0] == "call" and q[1].split(" => ")[0].endswith("::len"))
-            on_pts = T.contains(idx[0][2][0], lambda q: q[0] == "field" and q[2] == "BezierSpline.0")
-            after = ap.dominates(bi, pb) and all(ap.dominates(pb, r) for r in G.return_blocks(ap))
-            same_vec = s(asl.operand(pt["args"][0])) == s(asl.operand(t["args"][5]))
-            ok_last = is_last and on_pts and after and same_vec
-    ret_same = s(asl.local(0)) == s(asl.operand(t["args"][5]))
-    rep.inst("C17.R-ends", "approximate pushes self.0[len - 1] after the recursion into the vector it returns: %s / %s" % (ok_last, ret_same), config=cfg)
-    if not (ok_last and ret_same):
-        rep.violate("C17.R-ends", "R-ends|last-point", ap.where(), "the polyline does not end with the last control point pushed verbatim after the recursion", config=cfg)
+    rep.floor("C17.entry.%s" % cfg, len([1 for _b, _t in ap.calls(lambda c: c["path"] == DO)]), 1, "do_approx call in approximate")
     # step(): t <= 0 -> min, t >= 1 -> max (abstract interpretation over orderings)
     st = prog.body(SP + "step")
     table = {}
@@ -480,6 +486,7 @@ def algebra_rules(rep, prog):
                  j = 0..n-1, and t = 1 exactly) it returns control points 3i..3i+3 and a local parameter u with
                  i + u = t*n as an identity, i = j inside the curve and i = n-1, u = 1 at the end: the spline passes
                  through every third control point and joins are continuous
+      S-out      BezierSpline::tangent(t) for t < 0 / t > 1 asks the first / last segment's cubic at a parameter <= 0 / >= 1 (end tangent)
       S-eval     BezierSpline::eval/tangent evaluate the cubic of exactly that segment at exactly that parameter"""
     from fractions import Fraction
     from . import symalg as S, poly as PL
@@ -529,6 +536,22 @@ def algebra_rules(rep, prog):
     req(polys["eval"] == bern, "E-agree", "eval", eb.where(), "CubicBezier::eval(t) = sum C(3,k) t^k (1-t)^(3-k) p_k for 0 < t < 1")
     req(polys["fast_eval"] == bern, "E-agree", "fast_eval", prog.body(SP + "CubicBezier::<T>::fast_eval").where(), "CubicBezier::fast_eval(t) = the Bernstein form = eval(t) for 0 < t < 1")
     req(polys["tangent"] == deriv, "E-tangent", "tangent", prog.body(SP + "CubicBezier::<T>::tangent").where(), "CubicBezier::tangent(t) = d/dt of the Bernstein form")
+    # beyond the ends the cubic's tangent is the end tangent ("clamps t to [0, 1]"): 3 (p1 - p0) for t < 0, 3 (p3 - p2) for t > 1
+    tb = prog.body(SP + "CubicBezier::<T>::tangent")
+    for side, want in (("t < 0", {("p1",): Fraction(3), ("p0",): Fraction(-3)}), ("t > 1", {("p3",): Fraction(3), ("p2",): Fraction(-3)})):
+        lo = side == "t < 0"
+
+        def orc_out(op, a_, b_, lo=lo):
+            if a_ == t and b_ in (("f", 0.0), ("f", 1.0)):
+                return {"Le": lo, "Lt": lo, "Gt": not lo, "Ge": not lo, "Eq": False, "Ne": True}.get(op)
+            return None
+        cl_out = lambda it_, args, c, d, lo=lo: (A.deref_all(it_, args[1]) if lo else A.deref_all(it_, args[2])) if A.deref_all(it_, args[0]) == t else NotImplemented  # noqa: E731
+        it = S.interp(prog, oracle=orc_out, models={"$f32>::clamp": cl_out})
+        try:
+            got = S.to_poly(A.deref_all(it, it.call_body(tb, [S.ref_to(A.copy_val(cb)), t], env={"T": "f32"})))
+        except (A.Undecided, A.Panic, S.NotPolynomial) as e:
+            raise common.Infra("C17.E-tangent: CubicBezier::tangent could not be evaluated for %s (%s)" % (side, e))
+        req(got == want, "E-tangent", "tangent-" + ("below" if lo else "above"), tb.where(), "CubicBezier::tangent(t) = the tangent at the %s end for %s" % ("first" if lo else "last", side))
     # ---- spline
     seg_b = prog.body(SP + "BezierSpline::<T>::segment")
     n_scen = 0
@@ -583,6 +606,62 @@ def algebra_rules(rep, prog):
                             "BezierSpline::segment with %s returns the local parameter %s for segment %d: segment index + local parameter must equal t*n "
                             "(the curve would jump or stall at that position)" % (what, up, i_want), config=cfg)
     rep.floor("C17.S-seg.%s" % cfg, n_scen, 14, "segment() scenarios")
+    # ---- S-out: BezierSpline::tangent beyond the ends ("clamps t to [0, 1]"; the property quantifies over t < 0 and t > 1): interpreted with
+    # t < 0 (floor(t*n) = -1) resp. t > 1 (floor(t*n) = n), CubicBezier::tangent uninterpreted: it must be asked for the FIRST segment at a
+    # parameter <= 0 resp. the LAST segment at a parameter >= 1 (where the cubic's own clamp pins it to the end tangent)
+    tg_b = prog.body(SP + "BezierSpline::<T>::tangent")
+    for segs in (1, 2, 3):
+        npts = 3 * segs + 1
+        for side, j in (("t < 0", -1), ("t > 1", segs)):
+            sp = ("adt", ADT, "BezierSpline", [("array", [S.sym("p%d" % i) for i in range(npts)])])
+            asked = []
+
+            def m_ctan(it_, args, c, d):
+                cbv = A.deref_all(it_, args[0])
+                pts_ = cbv
+                while isinstance(pts_, tuple) and pts_[0] == "adt" and len(pts_[3]) == 1:
+                    pts_ = A.deref_all(it_, pts_[3][0])
+                asked.append(([A.deref_all(it_, p_) for p_ in pts_[1]], A.deref_all(it_, args[1])))
+                return ("sym", "TANGENT")
+
+            def orc(op, a_, b_, side=side):
+                lo = side == "t < 0"
+                if a_ == t and b_ == ("f", 0.0):
+                    return {"Le": lo, "Lt": lo, "Gt": not lo, "Ge": not lo, "Eq": False, "Ne": True}.get(op)
+                if a_ == t and b_ == ("f", 1.0):
+                    return {"Le": lo, "Lt": lo, "Gt": not lo, "Ge": not lo, "Eq": False, "Ne": True}.get(op)
+                return None
+            fl = lambda it_, args, c, d, j=j: ("f", float(j))  # noqa: E731
+            cl = lambda it_, args, c, d, side=side: (A.deref_all(it_, args[1]) if side == "t < 0" else A.deref_all(it_, args[2])) if A.deref_all(it_, args[0]) == t else NotImplemented  # noqa: E731
+            it = S.interp(prog, oracle=orc, models={"$f32>::floor": fl, "$::floorf": fl, "$float::mm::floor": fl, "$float::fallback::floor": fl, "$float::libm::floor": fl,
+                                                    "CubicBezier::<T>::tangent": m_ctan, "$f32>::clamp": cl})
+            it.float_to_int = lambda v, to, j=j: (max(j, 0) if to.startswith("u") else j) if not (isinstance(v, tuple) and v[0] == "f") else None
+            try:
+                it.call_body(tg_b, [S.ref_to(sp), t], env={"T": "f32"})
+            except (A.Undecided, A.Panic, IndexError, TypeError) as e:
+                raise common.Infra("C17.S-out: BezierSpline::tangent could not be interpreted for %d segment(s), %s (%s)" % (segs, side, e))
+            what = "%d segment(s), %s" % (segs, side)
+            if len(asked) != 1:
+                rep.inst("C17.S-out", "tangent(): %s -> CubicBezier::tangent asked %d times: not decided" % (what, len(asked)), config=cfg)
+                continue
+            pts_, u_ = asked[0]
+            names = [p_[1] if isinstance(p_, tuple) and p_[0] == "sym" else "?" for p_ in pts_]
+            i_want = 0 if side == "t < 0" else segs - 1
+            ok_pts = names == ["p%d" % (3 * i_want + k) for k in range(4)]
+            vals = []
+            try:
+                for fr_ in (0.01, 0.5, 0.99):
+                    tv_ = (j + fr_) / segs           # floor(t*n) = j
+                    vals.append(S.num_eval(u_, {"t": tv_}) if not isinstance(u_, (int, float)) else float(u_))
+            except (S.NotNumeric, KeyError, TypeError, ZeroDivisionError) as e:
+                raise common.Infra("C17.S-out: the parameter handed to CubicBezier::tangent for %s is not a function of t (%s)" % (what, e))
+            ok_u = all(v <= 1e-9 for v in vals) if side == "t < 0" else all(v >= 1.0 - 1e-9 for v in vals)
+            rep.inst("C17.S-out", "tangent(): %s -> cubic of points %s at a parameter %s (samples %s): %s"
+                     % (what, names, "<= 0" if side == "t < 0" else ">= 1", [round(v, 3) for v in vals], "end tangent" if ok_pts and ok_u else "NOT the end tangent"), config=cfg)
+            if not (ok_pts and ok_u):
+                rep.violate("C17.S-out", "S-out|%s" % ("below" if side == "t < 0" else "above"), tg_b.where(),
+                            "BezierSpline::tangent(t) with %s evaluates the cubic of %s at parameter values %s: beyond the ends it must give the tangent at the end "
+                            "(first segment at a parameter <= 0, last segment at a parameter >= 1)" % (what, names, [round(v, 3) for v in vals]), config=cfg)
     # S-eval: eval = CubicBezier(segment(t).1).fast_eval(segment(t).0) / tangent likewise (provenance)
     for fn, inner in (("eval", ("fast_eval", "eval")), ("tangent", ("tangent",))):
         b = prog.body(SP + "BezierSpline::<T>::" + fn)
@@ -610,6 +689,6 @@ def check(rep, args):
                        "polynomial identities for the evaluators and segment()",
         "evaluations": len(rep.instances),
         "distinct_nontrivial": len({i["what"] for i in rep.instances}),
-        "rules": ["R-term", "R-ctor", "R-leaf", "R-ends", "E-exact", "E-agree", "E-tangent", "S-seg", "S-eval"],
+        "rules": ["R-term", "R-ctor", "R-leaf", "R-ends", "E-exact", "E-agree", "E-tangent", "S-seg", "S-out", "S-eval"],
     }
     return "other", cov, ["the caller's `halt` closure terminates", "identities hold over the reals: float rounding of the evaluators and of t*n at joins is not decided"]
